@@ -354,9 +354,9 @@ def pinned_chains(prop):
     out = []
     for e in vlib.load_known_findings(prop):
         pth = e.get("pinned_input")
-        if pth and os.path.exists(os.path.join(vlib.VERIF, pth)):
+        if pth and pth.endswith(".json") and os.path.isfile(os.path.join(vlib.VERIF, pth)):
             j = json.load(open(os.path.join(vlib.VERIF, pth)))
-            if "chain" in j:
+            if isinstance(j, dict) and "chain" in j:
                 out.append([tuple(x) for x in j["chain"]])
     return out
 
